@@ -914,3 +914,45 @@ Proof.
   | exact (NV.Bcf.NeverPanics.dec_record_typed_np strings contigs ik fk hs bs)].
 Qed.
 Print Assumptions c15_bcf_lazy_eager_same_outcome.
+
+(* ---- TENTH WAVE: bam read_record's validate is exactly the accessors' precondition ------------ *)
+From NV Require Hostile.BamAcc Hostile.BamAccProofs.
+
+(* one read_record call on block_size = |body| + body, EVERY body: Ok(0), UnexpectedEof, or a record
+   whose name / cigar / sequence / quality_scores / data slices are all in range (model compared
+   with the crate: kind bamv) *)
+Theorem c15_bam_read_record_view_total : forall body,
+  NV.Hostile.BamAcc.read_record_view body = NV.Hostile.BamAcc.RREof \/
+  NV.Hostile.BamAcc.read_record_view body = NV.Hostile.BamAcc.RRErr NV.Bam.Record.UnexpectedEof \/
+  exists n c s q d, NV.Hostile.BamAcc.read_record_view body =
+    NV.Hostile.BamAcc.RRRec (Some n) (Some c) (Some s) (Some q) (Some d).
+Proof. exact NV.Hostile.BamAccProofs.read_record_view_total. Qed.
+Print Assumptions c15_bam_read_record_view_total.
+
+Theorem c15_bam_validate_accessors_in_bounds : forall body,
+  NV.Bam.Decode.validate body = NV.Bam.Record.Ok tt -> NV.Hostile.BamAcc.accessors_in_bounds body.
+Proof. exact NV.Hostile.BamAccProofs.validate_accessors_in_bounds. Qed.
+Print Assumptions c15_bam_validate_accessors_in_bounds.
+
+(* exactness: validate accepts iff quality_scores() (equivalently data()) does not slice out of
+   range, so no weaker length check is safe *)
+Theorem c15_bam_validate_exact : forall body,
+  (NV.Bam.Decode.validate body = NV.Bam.Record.Ok tt <->
+     (NV.Bam.Lazy.has_head body = true /\ NV.Bam.Lazy.lzp_qual body <> None)) /\
+  (NV.Bam.Decode.validate body = NV.Bam.Record.Ok tt <->
+     (NV.Bam.Lazy.has_head body = true /\ NV.Bam.Lazy.lzp_data_raw body <> None)).
+Proof.
+  intros body. split;
+  [exact (NV.Hostile.BamAccProofs.validate_exact body) | exact (NV.Hostile.BamAccProofs.validate_exact_data body)].
+Qed.
+Print Assumptions c15_bam_validate_exact.
+
+(* the seeded change (l_seq / 2 instead of div_ceil) refuted: accepted by the weak check, panics *)
+Theorem c15_bam_validate_weak_witness :
+  NV.Hostile.BamAcc.validate_weak NV.Hostile.BamAcc.weak_witness = NV.Bam.Record.Ok tt /\
+  NV.Bam.Lazy.lzp_qual NV.Hostile.BamAcc.weak_witness = None /\
+  NV.Bam.Lazy.lzp_data_raw NV.Hostile.BamAcc.weak_witness = None /\
+  NV.Bam.Lazy.lzp_seq NV.Hostile.BamAcc.weak_witness <> None /\
+  NV.Bam.Decode.validate NV.Hostile.BamAcc.weak_witness = NV.Bam.Record.Err NV.Bam.Record.UnexpectedEof.
+Proof. exact NV.Hostile.BamAccProofs.validate_weak_witness. Qed.
+Print Assumptions c15_bam_validate_weak_witness.
